@@ -232,7 +232,8 @@ def explore(chk):
                 chk.property_failure({"reader": rd.__name__, "lang": l, "languages": cs.get_languages()}, "reader lang= does not name the language of the result")
     jobs2 = []
     for tt_lang in (None, "fr"):
-        for div_langs in ([None], ["de", None], [None, "es"], ["en", "en"]):
+        # xml:lang="" is an explicit label (the XML way of saying "no language"), not a missing attribute
+        for div_langs in ([None], ["de", None], [None, "es"], ["en", "en"], ["en", "", "de"], ["", None]):
             for default in (None, "it"):
                 jobs2.append({"tt": tt_lang, "divs": div_langs, "default": default})
     b2 = core.Batch()
@@ -255,11 +256,11 @@ def explore(chk):
         # S: each div under xml:lang -> tt xml:lang -> configured default ('und'); a repeated language keeps one list
         want = {}
         for i, dl in enumerate(j["divs"]):
-            lang = dl or j["tt"] or j["default"] or "und"
+            lang = dl if dl is not None else (j["tt"] or j["default"] or "und")
             want[lang] = ["cue %d" % i]          # a later div of the same language replaces the earlier one (pycaption keeps one list per language)
         chk.case(key=("dfxpfallback", json.dumps(j)), nontrivial=True, sample=dict(j, impl=I) if k == 3 else None); chk.count("dfxp_fallback")
         got = {l: c for l, c in I} if I != "err" else None
-        if got is None or list(got.keys()) != list(want.keys()) or any(not set(got[l]) <= {"cue %d" % i for i, dl in enumerate(j["divs"]) if (dl or j["tt"] or j["default"] or "und") == l} for l in got):
+        if got is None or list(got.keys()) != list(want.keys()) or any(not set(got[l]) <= {"cue %d" % i for i, dl in enumerate(j["divs"]) if (dl if dl is not None else (j["tt"] or j["default"] or "und")) == l} for l in got):
             chk.property_failure(dict(j, document=doc, impl=str(I), spec=str(want)), "dfxp reader: a div without xml:lang does not fall back to the document language and then to the configured default")
         if out2 is not None and I != "err":
             M = core.dec_list(out2[k], core.dec)
